@@ -315,7 +315,7 @@ def clone_value(v, memo: dict):
         n.oid = v.oid
         n.payload = clone_value(v.payload, memo)
         n.fields = {k: clone_value(x, memo) for k, x in v.fields.items()}
-        for extra in ("tuple_fields", "summary"):
+        for extra in ("tuple_fields", "summary", "born_trace"):
             if hasattr(v, extra):
                 setattr(n, extra, getattr(v, extra))
         return n
